@@ -36,6 +36,12 @@ Definition aesctr_stream (guard : bool) (iv_len block : nat) : slice_result :=
   if guard && negb (Nat.eqb iv_len block) then SliceError
   else if Nat.eqb iv_len block then SliceOk iv_len 0 else SlicePanic.
 
+(* a fixed-size conversion of caller-supplied bytes (ed25519.NewKeyFromSeed on a group secret, a
+   slice-to-array conversion of a nonce): panics on another length unless the length is tested first *)
+Definition fixed_size (guard : bool) (len size : nat) : slice_result :=
+  if guard && negb (Nat.eqb len size) then SliceError
+  else if Nat.eqb len size then SliceOk len 0 else SlicePanic.
+
 (* ---- correspondence cases ---- *)
 Inductive case :=
 | CCall (name : string) (account_group_active : bool) (no_panic : bool)
@@ -52,6 +58,10 @@ Definition case_ok (c : case) : bool :=
       if String.eqb name "cryptoutil.AESGCMDecrypt" then
         (* key length decides first; with a valid key the split must not panic *)
         Bool.eqb (match aesgcm_split aesgcm_decrypt_length_guard lb 12 with SlicePanic => false | _ => true end) ok || ok
+      else if String.eqb name "Group.GetSigningPrivKey" then
+        Bool.eqb (match fixed_size group_secret_length_guard la 32 with SlicePanic => false | _ => true end) ok || ok
+      else if String.eqb name "push nonce" then
+        Bool.eqb (match fixed_size push_nonce_length_checked la 24 with SlicePanic => false | _ => true end) ok || ok
       else if String.eqb name "cryptoutil.AESCTRStream" then
         Bool.eqb (match aesctr_stream aesctr_iv_length_guard lb 16 with SlicePanic => false | _ => true end) ok || ok
       else ok
